@@ -276,3 +276,17 @@ Fixpoint observe_gen (pinned : bool) (c : cfg) (s : state) (tr : list event) : l
 Definition observe (pinned : bool) (ci cm cinc : Z) (tr : list event) : list (list Z) :=
   let c := {| c_init := ci; c_max := cm; c_inc := cinc |} in
   obs_state (init_gen pinned c) 0 :: observe_gen pinned c (init_gen pinned c) tr.
+
+(* ---- the refutation witness for the pinned bookkeeping: init 1, max 4 *)
+Definition cfg14 : cfg := {| c_init := 1; c_max := 4; c_inc := 10 |}.
+Definition overshoot_trace : list event :=
+  [SpawnOne 0; MasterAdd 0;          (* the initial worker (pid 1) is up *)
+   WAccept 1; MasterUpdate;          (* it reports BUSY: nobody idle, batch of 3 reserved (refCount 4) *)
+   SpawnOne 1; MasterAdd 1;          (* pid 2 registers: the pinned code sets refCount := len(childs) = 2 *)
+   WAccept 2; MasterUpdate;          (* pid 2 reports BUSY: nobody idle, a second batch of 2 is reserved *)
+   SpawnOne 1; MasterAdd 1; SpawnOne 1; MasterAdd 1;    (* rest of the first batch *)
+   SpawnOne 2; MasterAdd 2; SpawnOne 2; MasterAdd 2]%nat. (* the second batch *)
+
+(* which worker an event belongs to (None: an event of the master / the environment) *)
+Definition ev_worker (e : event) : option nat :=
+  match e with WAccept p | WFinish p | WTimeout p | WCrash p => Some p | _ => None end.
